@@ -105,28 +105,28 @@ func c17StateName(s int) string {
 	return fmt.Sprintf("abs->e%d", j)
 }
 
+// c17EntryPath places entry i of the graph named prefix: even entries in p/, odd ones in
+// q/, so that relative links cross directories. All graphs of a batch share p/ and q/ (the
+// graph name is part of the entry name), which keeps the loader's on-disk work small.
 func c17EntryPath(prefix string, i int) string {
 	d := "p"
 	if i%2 == 1 {
 		d = "q"
 	}
-	return fmt.Sprintf("%s/%s/e%d", prefix, d, i)
+	return fmt.Sprintf("%s/%s_e%d", d, prefix, i)
 }
 
-// c17GraphLayers renders one graph under the directory prefix (relative, e.g. "g12") as
-// the entries of the three layers.
+// c17GraphLayers renders one graph (named prefix, e.g. "g12") as the entries of layer 0
+// (the graph) and layer 1 (the whiteouts of its deleted entries).
 func c17GraphLayers(prefix string, states []int) (l0, l1 []tarimg.Entry) {
-	// (the keep files make sure p/ and q/ never become empty: a directory emptied by
-	// whiteouts vanishes from the final view, which is C04's finding, not this property's)
-	l0 = append(l0, tarimg.D(prefix, 0o755), tarimg.D(prefix+"/p", 0o755), tarimg.F(prefix+"/p/keep", "k", 0o644), tarimg.D(prefix+"/q", 0o755), tarimg.F(prefix+"/q/keep", "k", 0o644))
-	l1 = append(l1, tarimg.D(prefix, 0o755), tarimg.D(prefix+"/p", 0o755), tarimg.D(prefix+"/q", 0o755))
 	for i, s := range states {
 		p := c17EntryPath(prefix, i)
 		switch {
 		case s == stFile:
 			l0 = append(l0, tarimg.F(p, "file:"+p, 0o644))
 		case s == stDir:
-			l0 = append(l0, tarimg.D(p, 0o755), tarimg.F(p+"/in_"+strings.ReplaceAll(p, "/", "_"), "x", 0o644))
+			// the child (a symlink: no on-disk work) identifies the directory in listings
+			l0 = append(l0, tarimg.D(p, 0o755), tarimg.S(p+"/in_"+strings.ReplaceAll(p, "/", "_"), "/unrelated"))
 		case s == stMissing:
 		case s == stDeleted:
 			l0 = append(l0, tarimg.F(p, "deleted:"+p, 0o644))
@@ -147,8 +147,13 @@ func c17GraphLayers(prefix string, states []int) (l0, l1 []tarimg.Entry) {
 	return l0, l1
 }
 
+// c17Image wraps the graph entries into the 3-layer image. The keep files make sure p/ and
+// q/ exist and never become empty (a directory emptied by whiteouts vanishes from the final
+// view, which is C04's finding, not this property's).
 func c17Image(l0, l1 []tarimg.Entry) tarimg.Image {
-	l1 = append(l1, tarimg.F("layer1-marker", "m", 0o644))
+	head := []tarimg.Entry{tarimg.D("p", 0o755), tarimg.F("p/keep", "k", 0o644), tarimg.D("q", 0o755), tarimg.F("q/keep", "k", 0o644)}
+	l0 = append(head, l0...)
+	l1 = append([]tarimg.Entry{tarimg.D("p", 0o755), tarimg.D("q", 0o755), tarimg.F("layer1-marker", "m", 0o644)}, l1...)
 	return tarimg.Image{Layers: []tarimg.Layer{
 		{Entries: l0},
 		{Entries: l1},
@@ -334,18 +339,38 @@ func c17CheckGraph(chains []scalibrfs.FS, prefix string, states []int, depth int
 				return fmt.Errorf("view %d (MaxSymlinkDepth %d): %w", vi, depth, err)
 			}
 		}
-		// the listings of the two directories hide deleted entries and show the rest
-		for _, d := range []string{"/" + prefix + "/p", "/" + prefix + "/q"} {
+	}
+	return nil
+}
+
+// c17CheckListings compares the listings of p/ and q/ (deleted entries hidden, everything
+// else shown) in the intermediate and the final view with the overlay of the whole image.
+// It returns the first entry name that differs.
+func c17CheckListings(chains []scalibrfs.FS, views []overlay.View) (string, error) {
+	for _, vi := range []int{1, 2} {
+		for _, d := range []string{"/p", "/q"} {
 			ents, err := chains[vi].ReadDir(rel(d))
 			if err != nil {
-				return fmt.Errorf("view %d: ReadDir(%q) fails with %q", vi, rel(d), err)
+				return "", fmt.Errorf("view %d: ReadDir(%q) fails with %q", vi, rel(d), err)
 			}
-			if got, want := entryNames(ents), views[vi].Children(d); strings.Join(got, ",") != strings.Join(want, ",") {
-				return fmt.Errorf("view %d: ReadDir(%q) lists %v, the overlay contains %v", vi, rel(d), got, want)
+			got, want := map[string]bool{}, map[string]bool{}
+			for _, e := range ents {
+				got[e.Name()] = true
+			}
+			for _, c := range views[vi].Children(d) {
+				want[c] = true
+				if !got[c] {
+					return c, fmt.Errorf("view %d: ReadDir(%q) hides %q, which the overlay contains", vi, rel(d), c)
+				}
+			}
+			for _, c := range sortedKeys(got) {
+				if !want[c] {
+					return c, fmt.Errorf("view %d: ReadDir(%q) lists %q, which the overlay does not contain (deleted or never there)", vi, rel(d), c)
+				}
 			}
 		}
 	}
-	return nil
+	return "", nil
 }
 
 func c17Outcome(n int, code int64, depth int, states []int, tl *c17Tally) ev.Outcome {
@@ -403,6 +428,9 @@ func propC17(col *ev.Collector) func(cs c17Case) (ev.Outcome, error) {
 		}
 		var tl c17Tally
 		cerr := c17CheckGraph(c17Chains(ld), "g0", states, cs.Depth, col, &tl)
+		if cerr == nil {
+			_, cerr = c17CheckListings(c17Chains(ld), overlay.Views(c17Image(l0, l1).Layers))
+		}
 		if cerr != nil {
 			cerr = fmt.Errorf("graph %v: %w", c17StateNames(states), cerr)
 		}
@@ -434,6 +462,7 @@ func c17RunBatch(e *ev.Enumerator, n int, codes []int64, depths []int) bool {
 		l0, l1 = append(l0, a...), append(l1, b...)
 	}
 	img := c17Image(l0, l1)
+	bviews := overlay.Views(img.Layers)
 	for _, d := range depths {
 		ld, err := loadImage(img, &require.FileRequirerAll{}, d)
 		if err != nil || len(ld.Chains) != 3 {
@@ -445,9 +474,21 @@ func c17RunBatch(e *ev.Enumerator, n int, codes []int64, depths []int) bool {
 			return e.Report(cs, ev.Outcome{}, fmt.Errorf("FromV1Image fails on a batch of %d graphs: %w", len(codes), err))
 		}
 		chains := c17Chains(ld)
+		badGraph := -1
+		badName, lerr := c17CheckListings(chains, bviews)
+		if lerr != nil {
+			badGraph = 0
+			var i int
+			if _, serr := fmt.Sscanf(badName, "g%d_e%d", &badGraph, &i); serr != nil || badGraph >= len(codes) {
+				badGraph = 0
+			}
+		}
 		for k, code := range codes {
 			var tl c17Tally
 			cerr := c17CheckGraph(chains, fmt.Sprintf("g%d", k), states[k], d, e.C, &tl)
+			if cerr == nil && k == badGraph {
+				cerr = lerr
+			}
 			cs := c17Case{Leg: "graph", N: n, Code: code, Depth: d}
 			if cerr != nil {
 				cs.States = c17StateNames(states[k])
